@@ -437,4 +437,206 @@ theorem forall₂_out {ys rhos : List (List ℚ)} {eps : ℚ}
     rw [List.zipWith_cons_cons, List.any_cons, ih, Bool.or_false]
     simpa using nSatStrict_le_one hd.2.eps_small (sat_nonneg_sum hd.1).1 (sat_nonneg_sum hd.1).2
 
+theorem pSum_ofFn {n} (y rho : Fin n → ℚ) : pSum (List.ofFn y) (List.ofFn rho) = ∑ j, rho j * (1 - y j) := by
+  simp [pSum, zipWith_ofFn, List.sum_ofFn]
+
+/-- explicit solution over `Fin n` -/
+def solF {n} (y rho : Fin n → ℚ) (j : Fin n) : ℚ :=
+  1 / ((∑ k, y k / rho k) + ((n : ℚ) - 1 - ∑ k, y k) * (1 - ∑ k, y k) / ∑ k, rho k * (1 - y k))
+    * (y j / rho j + (1 - y j) * (1 - ∑ k, y k) / ∑ k, rho k * (1 - y k))
+
+theorem codedSolution_ofFn {n} (y rho : Fin n → ℚ) :
+    codedSolution (List.ofFn y) (List.ofFn rho) = List.ofFn (solF y rho) := by
+  simp only [codedSolution, pSum_ofFn, wsum_ofFn, zipWith_ofFn, List.sum_ofFn, List.map_ofFn, List.length_ofFn, Function.comp_def]
+  rfl
+
+theorem clear_D (W P a : ℚ) (hP : P ≠ 0) (hD : W + a / P ≠ 0) : W * P + a ≠ 0 := by
+  intro h
+  apply hD
+  field_simp
+  linarith
+
+section snap
+variable {n : ℕ} (y rho : Fin n → ℚ)
+
+theorem P_pos (hn : 2 ≤ n) (hy : ∀ i, 0 ≤ y i) (hs : ∑ i, y i ≤ 1) (hr : ∀ i, 0 < rho i) :
+    0 < ∑ j, rho j * (1 - y j) := by
+  have hle : ∀ i, y i ≤ 1 := fun i =>
+    (Finset.single_le_sum (fun k _ => hy k) (mem_univ i)).trans hs
+  have hex : ∃ i, y i < 1 := by
+    by_contra hne
+    have h1 : ∀ i, y i = 1 := fun i => le_antisymm (hle i) (not_lt.mp (fun h => hne ⟨i, h⟩))
+    simp [h1] at hs
+    have : (2 : ℚ) ≤ n := by exact_mod_cast hn
+    linarith
+  obtain ⟨i, hi⟩ := hex
+  exact Finset.sum_pos' (fun k _ => mul_nonneg (hr k).le (by linarith [hle k]))
+    ⟨i, mem_univ i, mul_pos (hr i) (by linarith)⟩
+
+theorem D_pos (hn : 2 ≤ n) (hy : ∀ i, 0 ≤ y i) (hs : ∑ i, y i ≤ 1) (h0 : 0 < ∑ i, y i) (hr : ∀ i, 0 < rho i) :
+    0 < (∑ k, y k / rho k) + ((n : ℚ) - 1 - ∑ k, y k) * (1 - ∑ k, y k) / ∑ k, rho k * (1 - y k) := by
+  have hP := P_pos y rho hn hy hs hr
+  have hW : 0 < ∑ k, y k / rho k := by
+    have hex : ∃ i, 0 < y i := by
+      by_contra hne
+      have : ∀ i, y i = 0 := fun i => le_antisymm (not_lt.mp (fun h => hne ⟨i, h⟩)) (hy i)
+      simp [this] at h0
+    obtain ⟨i, hi⟩ := hex
+    exact Finset.sum_pos' (fun k _ => div_nonneg (hy k) (hr k).le) ⟨i, mem_univ i, div_pos hi (hr i)⟩
+  have : (2 : ℚ) ≤ n := by exact_mod_cast hn
+  have h2 : 0 ≤ ((n : ℚ) - 1 - ∑ k, y k) * (1 - ∑ k, y k) / ∑ k, rho k * (1 - y k) :=
+    div_nonneg (mul_nonneg (by linarith) (by linarith)) hP.le
+  linarith
+
+theorem solF_sum :
+    ∑ j, solF y rho j = 1 / ((∑ k, y k / rho k) + ((n : ℚ) - 1 - ∑ k, y k) * (1 - ∑ k, y k) / ∑ k, rho k * (1 - y k))
+      * ((∑ k, y k / rho k) + ((n : ℚ) - ∑ k, y k) * (1 - ∑ k, y k) / ∑ k, rho k * (1 - y k)) := by
+  unfold solF
+  rw [← Finset.mul_sum, Finset.sum_add_distrib, ← Finset.sum_div, ← Finset.sum_mul, Finset.sum_sub_distrib]
+  simp
+
+theorem solF_rho_sum (hr : ∀ i, rho i ≠ 0) (hP : ∑ k, rho k * (1 - y k) ≠ 0) :
+    ∑ j, rho j * solF y rho j
+      = 1 / ((∑ k, y k / rho k) + ((n : ℚ) - 1 - ∑ k, y k) * (1 - ∑ k, y k) / ∑ k, rho k * (1 - y k)) := by
+  unfold solF
+  have : ∀ j, rho j * (1 / ((∑ k, y k / rho k) + ((n : ℚ) - 1 - ∑ k, y k) * (1 - ∑ k, y k) / ∑ k, rho k * (1 - y k))
+      * (y j / rho j + (1 - y j) * (1 - ∑ k, y k) / ∑ k, rho k * (1 - y k)))
+      = 1 / ((∑ k, y k / rho k) + ((n : ℚ) - 1 - ∑ k, y k) * (1 - ∑ k, y k) / ∑ k, rho k * (1 - y k))
+        * (y j + rho j * (1 - y j) * ((1 - ∑ k, y k) / ∑ k, rho k * (1 - y k))) := by
+    intro j; have := hr j; field_simp
+  simp only [this, ← Finset.mul_sum, Finset.sum_add_distrib, ← Finset.sum_mul]
+  rw [mul_div_cancel₀ _ hP]
+  ring
+
+/-- the explicit solution solves the coded system (fractions need not sum to one) -/
+theorem solF_solves (hn : 2 ≤ n) (hy : ∀ i, 0 ≤ y i) (hs : ∑ i, y i ≤ 1) (h0 : 0 < ∑ i, y i) (hr : ∀ i, 0 < rho i)
+    (j : Fin n) :
+    ∑ k, (if k = j then 0 else rho j * (y j - 1) - rho k * y j) * solF y rho k = rho j * (y j - 1) := by
+  have hP := (P_pos y rho hn hy hs hr).ne'
+  have hD := (D_pos y rho hn hy hs h0 hr).ne'
+  rw [coded_row_apply, solF_sum, solF_rho_sum y rho (fun i => (hr i).ne') hP]
+  unfold solF
+  have hrj := (hr j).ne'
+  generalize (∑ k, rho k * (1 - y k)) = P at hP hD ⊢
+  generalize (∑ k, y k / rho k) = W at hD ⊢
+  generalize (∑ k, y k) = Y at hD ⊢
+  have hD' := clear_D W P _ hP hD
+  field_simp
+  ring
+
+/-- reproduced fraction of a present phase: exact error term -/
+theorem solF_repro (hn : 2 ≤ n) (hy : ∀ i, 0 ≤ y i) (hs : ∑ i, y i ≤ 1) (h0 : 0 < ∑ i, y i) (hr : ∀ i, 0 < rho i)
+    (j : Fin n) :
+    rho j * solF y rho j / ∑ k, rho k * solF y rho k
+      = y j + rho j * (1 - y j) * (1 - ∑ k, y k) / ∑ k, rho k * (1 - y k) := by
+  have hP := (P_pos y rho hn hy hs hr).ne'
+  have hD := (D_pos y rho hn hy hs h0 hr).ne'
+  rw [solF_rho_sum y rho (fun i => (hr i).ne') hP]
+  unfold solF
+  have hrj := (hr j).ne'
+  generalize (∑ k, rho k * (1 - y k)) = P at hP hD ⊢
+  generalize (∑ k, y k / rho k) = W at hD ⊢
+  generalize (∑ k, y k) = Y at hD ⊢
+  have hD' := clear_D W P _ hP hD
+  field_simp
+
+/-- sum of the solution: exact error term -/
+theorem solF_sum_err (hn : 2 ≤ n) (hy : ∀ i, 0 ≤ y i) (hs : ∑ i, y i ≤ 1) (h0 : 0 < ∑ i, y i) (hr : ∀ i, 0 < rho i) :
+    ∑ j, solF y rho j - 1 = (∑ k, rho k * solF y rho k) * (1 - ∑ k, y k) / ∑ k, rho k * (1 - y k) := by
+  have hP := (P_pos y rho hn hy hs hr).ne'
+  have hD := (D_pos y rho hn hy hs h0 hr).ne'
+  rw [solF_sum, solF_rho_sum y rho (fun i => (hr i).ne') hP]
+  generalize (∑ k, rho k * (1 - y k)) = P at hP hD ⊢
+  generalize (∑ k, y k / rho k) = W at hD ⊢
+  generalize (∑ k, y k) = Y at hD ⊢
+  have hD' := clear_D W P _ hP hD
+  field_simp
+  ring
+
+/-- bounds with `lo ≤ ρ ≤ hi`: `P ≥ lo (n - 1)`, `Σ ρ s ≤ hi / Σy` -/
+theorem P_ge (lo : ℚ) (hlo : ∀ i, lo ≤ rho i) (hl0 : 0 ≤ lo) (hy : ∀ i, 0 ≤ y i) (hs : ∑ i, y i ≤ 1) :
+    lo * ((n : ℚ) - 1) ≤ ∑ j, rho j * (1 - y j) := by
+  have hle : ∀ i, y i ≤ 1 := fun i => (Finset.single_le_sum (fun k _ => hy k) (mem_univ i)).trans hs
+  have h1 : ∑ j, lo * (1 - y j) ≤ ∑ j, rho j * (1 - y j) :=
+    Finset.sum_le_sum (fun j _ => mul_le_mul_of_nonneg_right (hlo j) (by linarith [hle j]))
+  rw [← Finset.mul_sum, Finset.sum_sub_distrib] at h1
+  simp at h1
+  nlinarith
+
+theorem repro_err_le (lo hi : ℚ) (hlo : ∀ i, lo ≤ rho i) (hhi : ∀ i, rho i ≤ hi) (hl0 : 0 < lo) (hn : 2 ≤ n)
+    (hy : ∀ i, 0 ≤ y i) (hs : ∑ i, y i ≤ 1) (j : Fin n) :
+    rho j * (1 - y j) * (1 - ∑ k, y k) / ∑ k, rho k * (1 - y k) ≤ hi / lo * ((1 - ∑ k, y k) / ((n : ℚ) - 1)) := by
+  have hr : ∀ i, 0 < rho i := fun i => lt_of_lt_of_le hl0 (hlo i)
+  have hP := P_pos y rho hn hy hs hr
+  have hPge := P_ge y rho lo hlo hl0.le hy hs
+  have hn2 : (2 : ℚ) ≤ n := by exact_mod_cast hn
+  have hn1 : (0 : ℚ) < (n : ℚ) - 1 := by linarith
+  have hle : y j ≤ 1 := (Finset.single_le_sum (fun k _ => hy k) (mem_univ j)).trans hs
+  have hnum : rho j * (1 - y j) ≤ hi := by
+    have := hhi j; have := hy j; have := hr j
+    nlinarith
+  have hd : 0 ≤ 1 - ∑ k, y k := by linarith
+  rw [div_mul_div_comm, div_le_div_iff₀ hP (mul_pos hl0 hn1)]
+  have h1 : rho j * (1 - y j) * (1 - ∑ k, y k) ≤ hi * (1 - ∑ k, y k) := mul_le_mul_of_nonneg_right hnum hd
+  have hhi0 : 0 ≤ hi * (1 - ∑ k, y k) := mul_nonneg (le_trans (hr j).le (hhi j)) hd
+  calc rho j * (1 - y j) * (1 - ∑ k, y k) * (lo * ((n : ℚ) - 1))
+      ≤ hi * (1 - ∑ k, y k) * (lo * ((n : ℚ) - 1)) := mul_le_mul_of_nonneg_right h1 (mul_nonneg hl0.le hn1.le)
+    _ ≤ hi * (1 - ∑ k, y k) * ∑ k, rho k * (1 - y k) := mul_le_mul_of_nonneg_left hPge hhi0
+
+end snap
+
+theorem codedSolution_eq_sat_of_sum (y rho : List ℚ) (h : y.sum = 1) : codedSolution y rho = sat y rho := by
+  simp only [codedSolution, sat, quot, h, sub_self, mul_zero, zero_div, add_zero]
+  apply List.map_congr_left
+  intro x _
+  ring
+
+theorem sum_select (eps : ℚ) (he : 0 ≤ eps) :
+    ∀ (y : List ℚ), (∀ v ∈ y, v = 0 ∨ eps < v) → (select (notVanished y eps) y).sum = y.sum := by
+  intro y
+  induction y with
+  | nil => intro _; simp [notVanished, select]
+  | cons v y ih =>
+    intro hv
+    have ih := ih (fun w hw => hv w (List.mem_cons_of_mem _ hw))
+    rcases hv v List.mem_cons_self with h0 | hpos
+    · subst h0
+      have : ¬ eps < 0 := not_lt.mpr he
+      simp only [notVanished, List.map_cons, this, decide_false, select] at ih ⊢
+      simpa using ih
+    · simp only [notVanished, List.map_cons, hpos, decide_true, select] at ih ⊢
+      simpa using ih
+
+/-- what is dropped by the mask is at most `eps` per dropped phase -/
+theorem defect_select_le (eps : ℚ) :
+    ∀ (y : List ℚ), y.sum - (select (notVanished y eps) y).sum ≤ (y.countP (fun v => decide (¬ eps < v)) : ℚ) * eps := by
+  intro y
+  induction y with
+  | nil => simp [notVanished, select]
+  | cons v y ih =>
+    by_cases h : eps < v
+    · simp only [notVanished, List.map_cons, h, decide_true, select, List.sum_cons, List.countP_cons, not_true_eq_false,
+        decide_false, Bool.false_eq_true, if_false, add_zero] at ih ⊢
+      linarith
+    · simp only [notVanished, List.map_cons, h, decide_false, select, List.sum_cons, List.countP_cons, not_false_eq_true,
+        decide_true, if_true, Nat.cast_add, Nat.cast_one] at ih ⊢
+      have := not_lt.mp h
+      linarith
+
+/-- snapping to a saturated phase changes every fraction by at most `eps` -/
+theorem indicator_err_le {n} (y : Fin n → ℚ) (eps : ℚ) (hy : ∀ i, 0 ≤ y i) (hs : ∑ i, y i = 1)
+    (j0 : Fin n) (hj0 : 1 - eps ≤ y j0) (k : Fin n) :
+    |(if 1 - eps ≤ y k then (1 : ℚ) else 0) - y k| ≤ eps := by
+  have hle : ∀ i, y i ≤ 1 := fun i => hs ▸ Finset.single_le_sum (fun k _ => hy k) (mem_univ i)
+  split
+  · rename_i h
+    rw [abs_of_nonneg (by linarith [hle k])]; linarith
+  · rename_i h
+    have hk : k ≠ j0 := fun e => h (e ▸ hj0)
+    have hsplit := Finset.add_sum_erase univ y (mem_univ j0)
+    have h2 : y k ≤ ∑ i ∈ univ.erase j0, y i :=
+      Finset.single_le_sum (fun i _ => hy i) (by simp [hk])
+    rw [zero_sub, abs_neg, abs_of_nonneg (hy k)]
+    linarith
+
 end PorepyVerif.C42
